@@ -4,7 +4,7 @@ import json
 
 import sess
 import srv
-from engine import coq_str, coq_list, coq_bool, coq_nat
+from engine import coq_str, coq_list, coq_bool, coq_nat, coq_opt
 
 RULE = ("(a) plaintext correspondence: real opaque tokens of every class are decrypted with the handler's own key and compared with "
         "the model's lv_pack(rnd, class, sid, exp) for hostile session ids; (b) the info() outcome of every (handler x minted class) "
@@ -159,6 +159,93 @@ def jwt_forgeries(rs, tok, clients):
     return [(k, v) for k, v in out if v != tok]
 
 
+ALG_CODE = {"RS256": "(AlgAsym 0 0)", "RS384": "(AlgAsym 0 1)", "RS512": "(AlgAsym 0 2)", "PS256": "(AlgAsym 0 3)",
+            "ES256": "(AlgAsym 1 0)", "ES384": "(AlgAsym 2 0)", "HS256": "(AlgHS 0)", "HS384": "(AlgHS 1)", "HS512": "(AlgHS 2)",
+            "none": "AlgNone"}
+
+
+def key_kind(k):
+    n = type(k).__name__
+    if n == "SYMKey":
+        return "KSym"
+    if n == "RSAKey":
+        return "(KAsym 0)"
+    if n == "ECKey":
+        return "(KAsym %d)" % {"P-256": 1, "P-384": 2, "P-521": 3}.get(getattr(k, "crv", ""), 9)
+    return "(KAsym 8)"
+
+
+def key_ident(k):
+    """the same number for a private key and the public key the jar holds for it"""
+    if type(k).__name__ == "SYMKey":
+        import hashlib
+        raw = k.key if isinstance(k.key, bytes) else str(k.key).encode()
+        return "sym:" + hashlib.sha256(raw).hexdigest()
+    return "asym:" + k.thumbprint("SHA-256").decode()
+
+
+def jwt_key_cases(ctx, rs, tok, clients, cases):
+    """Model/JwtKeys.v against JWTToken.get_payload: a genuine token and re-signed variants (who signs, under which
+    algorithm, naming whom as issuer) presented to every JWT class handler of the real provider"""
+    from cryptojwt.jws.jws import JWS
+    from cryptojwt.jwk.hmac import SYMKey
+    from cryptojwt.jwk.rsa import new_rsa_key
+    from cryptojwt.jwk.ec import new_ec_key
+    if tok.count(".") != 2:
+        return
+    h, p, _ = tok.split(".")
+    pay = json.loads(base64.urlsafe_b64decode(p + "=" * (-len(p) % 4)))
+    hdr = json.loads(base64.urlsafe_b64decode(h + "=" * (-len(h) % 4)))
+    kj = rs.server.keyjar
+    cks = getattr(rs, "_c04_client_keys", None)
+    if cks is None:
+        cks = rs._c04_client_keys = {"RS256": new_rsa_key(kid="c04-client-rsa"), "ES256": new_ec_key("P-256", kid="c04-client-ec")}
+        kj.import_jwks({"keys": [k.serialize(private=False) for k in cks.values()]}, clients[0])
+    num = {}
+
+    def kn(k):
+        return num.setdefault(key_ident(k), len(num))
+    jar = []
+    for owner in kj.owners():
+        for k in kj.get_issuer_keys(owner):
+            jar.append("mkJarkey %s %d %s" % (coq_str(owner), kn(k), key_kind(k)))
+    own = {("RS256" if type(k).__name__ == "RSAKey" else "ES256"): k for k in kj.get_issuer_keys("") if k.use in ("sig", "", None)}
+    signers = [("provider-%s" % a, k, a) for a, k in own.items()]
+    signers += [("client-secret-%s" % a, SYMKey(key=rs.secret(clients[1]), use="sig"), a) for a in ("HS256", "HS512")]
+    signers += [("client-registered-%s" % a, k, a) for a, k in cks.items()]
+    signers += [("fresh-ES256", new_ec_key("P-256"), "ES256"), ("fresh-RS256", new_rsa_key(), "RS256")]
+    issuers = [("kept", pay.get("iss")), ("client-with-keys", clients[0]), ("client-with-secret", clients[1]), ("absent", None), ("own-keys-owner", "")]
+    th = rs.sm.token_handler
+    for sname, key, alg in signers:
+        for iname, iss in issuers:
+            q = dict(pay)
+            if iss is None:
+                q.pop("iss", None)
+            else:
+                q["iss"] = iss
+            try:
+                value = JWS(json.dumps(q), alg=alg).sign_compact([key])
+            except Exception as e:
+                ctx.notes.append("could not sign %s/%s: %r" % (sname, iname, e))
+                continue
+            body = "(%s %d (Atom (PS \"payload\")))" % ("Mac" if alg.startswith("HS") else "Sig", kn(key))
+            jt = "mkJtok %s %s %s" % (ALG_CODE[alg], coq_opt(iss, coq_str, "pystr"), body)
+            for hk, hd in th.handler.items():
+                if type(hd).__name__ != "JWTToken" or hd.alg not in ALG_CODE:
+                    continue
+                try:
+                    hd.get_payload(value)
+                    acc = True
+                except Exception:
+                    acc = False
+                rec = {"jwt_keys": True, "handler": hk, "handler_alg": hd.alg, "signer": sname, "alg": alg, "iss": iname, "accepted": acc}
+                ctx.case_seen(rec, True)
+                ctx.count("jwt-keys:%s:iss-%s:%s" % (sname, iname, "accepted" if acc else "refused"))
+                if acc and not (sname.startswith("provider-") and iname == "kept"):
+                    ctx.violation("mutant-accepted", "a token signed by %s (alg %s) naming issuer %s verifies at the %s handler" % (sname, alg, iname, hk), rec)
+                cases.append(("(%s, %s, %s, %s, %s)" % (coq_list(jar, "jarkey"), coq_str(hd.issuer), ALG_CODE[hd.alg], jt, coq_bool(acc)), rec))
+
+
 def present(rs, slot, value, client):
     """present a raw string in a slot of the real endpoints; returns ('accepted', detail) or ('refused', why)"""
     try:
@@ -234,6 +321,10 @@ def endpoint_oracle(ctx, rng, variant, n_flows, n_mut):
         p2 = rs2.run(("proc", 0, None))
         foreign = {"access_token": rs2.tokens[p2[1]["access_token"]], "refresh_token": rs2.tokens[p2[1]["refresh_token"]]}
         th = rs.sm.token_handler
+        if jwt:
+            jk = []
+            jwt_key_cases(ctx, rs, rs.tokens[flows[0]["access_token"]], sess.CLIENTS, jk)
+            ctx.coq_check_cases(["Lib.Base", "Lib.PyStr", "Lib.Crypto", "Model.JwtKeys"], "jar * pystr * jalg * jtok * bool", "chk_jwt_keys", jk, label="jwtkeys")
         for f in flows:
             # ---- handler level: no handler may resolve a token of another class (ID Tokens included)
             for cls in ("access_token", "refresh_token", "id_token", "code"):
